@@ -104,6 +104,27 @@ CLAIMED = {
              "standard identity; reset re-initialises every field update/finish write; possibly-aliasing padding stores OR their bits "
              "in. " + DECIDES % "C11",
         technique="switch/slot table recovery, guard dataflow at slot calls, typed-AST narrowing rule with sibling cross-check, constant-geometry agreement with record layouts, transitive field write sets, index-aliasing rule"),
+    "C12": dict(
+        text="Rules C12.1-C12.5 on ptree*.c: dispatch triples per tree type; every descent loop (lookup, 3 inserts, 3 removes) calls the "
+             "comparator as (search key, node key, data) and goes left on < 0 / right on > 0; insert returns TRUE exactly when a new node "
+             "with the given pair is linked in (FALSE on replace and allocation failure), remove TRUE exactly when one node is unlinked and "
+             "freed; nnodes changes only on those TRUE results and once per node in clear; the Morris traversal counts its thread links, "
+             "returns early only with the counter zero and stops calling back after a stop request. " + DECIDES % "C12",
+        technique="term-valued dataflow with loop widening over the variant functions, guard dataflow for orientation/count/traversal discipline, switch-table recovery"),
+    "C13": dict(
+        text="THIN claim - rule C13.1 only (must-rebalance): in the red-black and AVL variants every path that links a new node initialises its "
+             "parent link and colour/balance factor and then calls the helper that (transitively) recolours/rotates, given that node; every "
+             "AVL removal retraces before the node is freed; the red-black removal fix-up runs on the childless-black path before the node is "
+             "unlinked. The balance invariants themselves and the comparison bounds are NOT decided by this technique (shape + arithmetic "
+             "over unbounded trees); see DESIGN.md section 4 C13.",
+        technique="must-pass-through rule on term-flow return states; helpers discovered by their transitive field write sets"),
+    "C14": dict(
+        text="Rules C14.1-C14.4 on ptree*.c: on every successful removal path (all three variants) the key and value of the node whose key "
+             "compared equal go to their notifiers exactly once, nothing still stored in a surviving node is destroyed, the removed pair does "
+             "not survive in another node, one node is freed; the replace path hands the old pair to the notifiers before storing the new one; "
+             "clear destroys every released node's pair first and free goes through clear; every notifier call is NULL-guarded; the library "
+             "never frees or writes through user keys/values. " + DECIDES % "C14",
+        technique="abstract interpretation of node/pair identity (term flow with widened descent and predecessor loops) with exit obligations on notifier arguments"),
 }
 
 NOT_YET = "check not yet armed (framework under construction); see DESIGN.md section 4 for the planned structural clauses"
